@@ -6,6 +6,7 @@ import (
 	"encoding/binary"
 	"fmt"
 	"io"
+	"os"
 	"regexp"
 	"strings"
 
@@ -251,6 +252,9 @@ func sqlprepOps(r *core.Run) {
 		{"rq1=1,E,Z,rq1=2,C,Z,xq1,D,C,Z", nil},
 	}
 	for _, f := range fixed {
+		if os.Getenv("C04_DEBUG_GENONLY") != "" {
+			break
+		}
 		line := "C04.sqlprep " + f.evs
 		r.Begin(line, true, "case:sql-prepared-script")
 		out := r.Do(line)
@@ -564,43 +568,89 @@ func sqlPreparedCase(r *core.Run, idx int) {
 		}
 		return ra, rb, true
 	}
+	// prepare sends `PREPARE nme AS <a generated SELECT>` in both sessions; false = the session is unusable
+	prepare := func(nme string) bool {
+		t := core.Pick(rd, cs.sch)
+		for tries := 0; len(cs.shadow[t.Name]) == 0 && tries < 8; tries++ {
+			t = core.Pick(rd, cs.sch)
+		}
+		if len(cs.shadow[t.Name]) == 0 {
+			return true
+		}
+		st := cs.styled(&Stmt{Kind: 'S', Table: t.Name})
+		if rd.Chance(30) {
+			st.Alias = "y"
+		}
+		st.Ret = cs.genTargets(t, st.Alias, true)
+		sql := "prepare " + nme + " as " + st.SQL()
+		if st.Upper {
+			sql = "PREPARE " + nme + " AS " + st.SQL()
+		}
+		cs.stmtSeq++
+		r.Begin(cs.sch.Token()+"|prepare|"+st.Token(), t.Configured, "case:sql-prepared-session", "stmt:prepare")
+		ra, _, ok := both(sql)
+		if !ok {
+			return false
+		}
+		_, taken := bound[nme]
+		if taken {
+			r.Check(len(ra) == 1 && ra[0].Err == "42P05", "session-broken", fmt.Sprintf("%q with the name in use: expected the database's duplicate error, got %v", sql, ra))
+			return true
+		}
+		if !r.Check(len(ra) == 1 && ra[0].Err == "", "statement-rejected", fmt.Sprintf("%q was rejected after the proxy: %v; forwarded %q", sql, ra, lastSQL(cs.w.DB))) {
+			return false
+		}
+		bound[nme] = &sqlPrep{st: st, tab: t, cols: cs.targetCols(t, st.Alias, st.Ret)}
+		// the inner SELECT went through the query encryptor: the session remembers its column settings
+		cs.lastItems = cs.itemsOf(t, bound[nme].cols)
+		return true
+	}
+	deallocate := func(nme string, all bool, k int) bool {
+		sql := "deallocate " + nme
+		if all {
+			sql = "deallocate all"
+		}
+		r.Begin(cs.key+fmt.Sprintf("|%d|%s", k, sql), false, "case:sql-prepared-session", "stmt:deallocate")
+		ra, _, ok := both(sql)
+		if !ok {
+			return false
+		}
+		if all {
+			r.Check(len(ra) == 1 && ra[0].Err == "", "session-broken", fmt.Sprintf("%q failed: %v", sql, ra))
+			for n := range bound {
+				delete(bound, n)
+			}
+			return true
+		}
+		if _, taken := bound[nme]; taken {
+			r.Check(len(ra) == 1 && ra[0].Err == "", "session-broken", fmt.Sprintf("%q failed: %v", sql, ra))
+			delete(bound, nme)
+		}
+		return true
+	}
 	for k := 0; k < steps; k++ {
 		if !r.Thorough() && len(r.Failures) > 3 {
 			break
 		}
 		nme := core.Pick(rd, names)
 		switch x := rd.Intn(100); {
-		case x < 30: // PREPARE
-			t := core.Pick(rd, cs.sch)
-			if len(cs.shadow[t.Name]) == 0 {
-				continue
-			}
-			st := cs.styled(&Stmt{Kind: 'S', Table: t.Name})
-			if rd.Chance(30) {
-				st.Alias = "y"
-			}
-			st.Ret = cs.genTargets(t, st.Alias, true)
-			sql := "prepare " + nme + " as " + st.SQL()
-			if st.Upper {
-				sql = "PREPARE " + nme + " AS " + st.SQL()
-			}
-			cs.stmtSeq++
-			r.Begin(cs.sch.Token()+"|prepare|"+st.Token(), t.Configured, "case:sql-prepared-session", "stmt:prepare")
-			ra, _, ok := both(sql)
-			if !ok {
+		case x < 14: // the name re-bound to another statement with NOTHING that returns rows in between
+			if bound[nme] == nil && !prepare(nme) {
 				return
 			}
-			_, taken := bound[nme]
-			if taken {
-				r.Check(len(ra) == 1 && ra[0].Err == "42P05", "session-broken", fmt.Sprintf("%q with the name in use: expected the database's duplicate error, got %v", sql, ra))
-				continue
+			if p := bound[nme]; p != nil {
+				cs.execPrepared(p, nme, bob)
 			}
-			if !r.Check(len(ra) == 1 && ra[0].Err == "", "statement-rejected", fmt.Sprintf("%q was rejected after the proxy: %v; forwarded %q", sql, ra, lastSQL(cs.w.DB))) {
+			if !deallocate(nme, rd.Chance(25), k) || !prepare(nme) {
 				return
 			}
-			bound[nme] = &sqlPrep{st: st, tab: t, cols: cs.targetCols(t, st.Alias, st.Ret)}
-			// the inner SELECT went through the query encryptor: the session remembers its column settings
-			cs.lastItems = cs.itemsOf(t, bound[nme].cols)
+			if p := bound[nme]; p != nil {
+				cs.execPrepared(p, nme, bob)
+			}
+		case x < 32: // PREPARE
+			if !prepare(nme) {
+				return
+			}
 		case x < 65: // EXECUTE
 			p, ok := bound[nme]
 			sql := "execute " + nme
@@ -617,23 +667,8 @@ func sqlPreparedCase(r *core.Run, idx int) {
 			}
 			cs.execPrepared(p, nme, bob)
 		case x < 77: // DEALLOCATE
-			sql := "deallocate " + nme
-			if rd.Chance(25) {
-				sql = "deallocate all"
-			}
-			r.Begin(cs.key+fmt.Sprintf("|%d|%s", k, sql), false, "case:sql-prepared-session", "stmt:deallocate")
-			ra, _, ok := both(sql)
-			if !ok {
+			if !deallocate(nme, rd.Chance(25), k) {
 				return
-			}
-			if sql == "deallocate all" {
-				r.Check(len(ra) == 1 && ra[0].Err == "", "session-broken", fmt.Sprintf("%q failed: %v", sql, ra))
-				bound = map[string]*sqlPrep{}
-				continue
-			}
-			if _, taken := bound[nme]; taken {
-				r.Check(len(ra) == 1 && ra[0].Err == "", "session-broken", fmt.Sprintf("%q failed: %v", sql, ra))
-				delete(bound, nme)
 			}
 		case x < 85:
 			t := core.Pick(rd, cs.sch)
